@@ -135,19 +135,24 @@ func (encryptor *HashQuery) OnQuery(ctx context.Context, query mysql.OnQueryObje
 
 			// the literal is re-spelled as a 0x.. number: decode it in its OWN spelling first (the
 			// digits of X'..' are not the value, and a text that starts with "0x" is not a number)
-			if raw, err := encryptor.coder.Decode(rVal, item.Setting); err == nil {
+			raw, err := encryptor.coder.Decode(rVal, item.Setting)
+			if err == nil && len(raw) > 0 {
 				spelled := make([]byte, 2+hex.EncodedLen(len(raw)))
 				copy(spelled, "0x")
 				hex.Encode(spelled[2:], raw)
 				rVal.Val = spelled
 			}
-			rVal.Type = sqlparser.HexNum
+			// (an empty value is searched as it is and keeps its spelling: there is no empty 0x number)
+			if err != nil || len(raw) > 0 {
+				rVal.Type = sqlparser.HexNum
+			}
 		}
 
 		// substring(column, 1, <HMAC_size>) = 'value' ===> substring(column, 1, <HMAC_size>) = <HMAC('value')>
 		// substring(column, 1, <HMAC_size>) = $1      ===> no changes
 		err := mysql.UpdateExpressionValue(ctx, item.Expr.Right, encryptor.coder, item.Setting, encryptor.calculateHmac)
-		if err != nil {
+		// a value that is searched as it is (empty value) must not stop the rewriting of the other comparisons
+		if err != nil && err != mysql.ErrUpdateLeaveDataUnchanged {
 			logrus.WithError(err).Debugln("Failed to update expression")
 			return query, false, err
 		}
